@@ -12,6 +12,7 @@ mod consts;
 mod gad;
 mod c09;
 mod c10;
+mod c10t;
 mod c11;
 mod c12;
 mod c13;
